@@ -1,0 +1,44 @@
+//go:build verif
+
+package kafka
+
+import (
+	"context"
+	"errors"
+	"io"
+	"strconv"
+)
+
+// Helpers of the RL.* hooks in reader.go ((*reader).run / initialize / read): the reconnect and backoff loop of a
+// partition reader, recorded for the C02 harness (build tag `verif` only).
+
+// verifErrClass maps an error of the reader loop to the class the loop's switch distinguishes.
+func verifErrClass(err error) string {
+	var ke Error
+	switch {
+	case err == nil:
+		return "nil"
+	case errors.Is(err, io.EOF):
+		return "eof"
+	case errors.Is(err, io.ErrNoProgress):
+		return "noprogress"
+	case errors.Is(err, context.Canceled):
+		return "canceled"
+	case errors.Is(err, errUnknownCodec):
+		return "unknowncodec"
+	case errors.As(err, &ke):
+		return "kafka" + strconv.Itoa(int(ke))
+	default:
+		return "other"
+	}
+}
+
+// verifConnOffset reads the fetch offset of a connection.
+func verifConnOffset(c *Conn) int64 {
+	if c == nil {
+		return -1
+	}
+	c.mutex.Lock()
+	defer c.mutex.Unlock()
+	return c.offset
+}
